@@ -12,6 +12,15 @@
       include/pomerol/TwoParticleGF.h:148-160,
       src/pomerol/TwoParticleGFPart.cpp:232-245, 257-262   what evaluation of a component requires
 
+    Nothing else in the library communicates: the MPI block of FieldOperator::compute is commented out
+    (FieldOperator.cpp:65-95; every rank computes all parts itself), GreensFunction, DensityMatrix, Susceptibility
+    and the containers of single-particle objects take no communicator.
+
+    Besides the traces the file defines a blocking execution semantics for them ([coll_step], [coll_run]: a
+    collective completes when all members of its communicator have reached it with the same kind and root), used
+    for the termination theorems, and the OpenMP loop of ComputeAndClearWrap::run ([iter], [run_schedule], and the
+    read/write-grain [par_run]).
+
     The point-to-point traffic of the dispatch loop (mpi_skel.hpp:68-79) is the subject of Dispatch.v (C16) and is
     not repeated here: that loop issues no collective, every rank leaves it (C16 no_deadlock / progress_measure),
     every job is executed exactly once and the job map names the executing rank, a member of the communicator
